@@ -172,13 +172,32 @@ func init() {
 			}
 			in = sb
 		}
-		o := rd(append([]byte{}, in...), a)
+		raceBefore := raceLogSize()
+		// phase 0: the same bytes are parsed (and projected through the accessors) by several goroutines at once, each on its own
+		// copy: the values are distinct, whatever they touch in common is package-level state.  Three of the results are kept: the
+		// shared value of the later phases, an untouched reference for the field-level comparison, and the control.
+		np := a.Int("n")
+		if np < 3 {
+			np = 3
+		}
+		parsed := make([]ReadOut, np)
+		var pw sync.WaitGroup
+		pgate := make(chan struct{})
+		for g := 0; g < np; g++ {
+			pw.Add(1)
+			go func(g int) {
+				defer pw.Done()
+				defer func() { recover() }()
+				<-pgate
+				parsed[g] = rd(append([]byte{}, in...), a)
+			}(g)
+		}
+		close(pgate)
+		pw.Wait()
+		o, ref1, ref2 := parsed[0], parsed[1], parsed[2]
 		if !o.OK || o.Val == nil {
 			return Res{"parsed": false, "err": o.Err}
 		}
-		// two more parses of the same bytes: one stays untouched (reference for field-level comparison), one is the control
-		ref1 := rd(append([]byte{}, in...), a)
-		ref2 := rd(append([]byte{}, in...), a)
 		v := reflect.ValueOf(o.Val)
 		methods := readOnlyMethods(v)
 		// calls with arguments (read-only by name): two argument tuples each
@@ -225,7 +244,6 @@ func init() {
 			return argCalls[j-len(methods)].name + "(..)"
 		}
 		tablesBefore := tablesSnapshot()
-		raceBefore := raceLogSize()
 		// the concurrent phase comes FIRST: lazily initialised state is then initialised under contention
 		n, reps := a.Int("n"), a.Int("reps")
 		var wg sync.WaitGroup
